@@ -149,7 +149,8 @@ void harness(void) { ghost_reset(); Handle* p; g_sets = 0; Dtor(p); if (g_sets) 
     job('Promise.Dtor', b, src, 'Dtor', ['Set'], canaries=2)
 
     # ---- FutureBase: ~FutureBase, Detach, Get&&, Get const& ---------------------------------------------------------
-    ci_stub = '''void CallInline(Core* c, Core* cb) __CPROVER_requires(c != 0 && g.call_inlines == 0) __CPROVER_assigns(g.call_inlines, g.ci_on, g.ci_cb) __CPROVER_ensures(g.call_inlines == 1 && g.ci_on == c && g.ci_cb == cb);
+    ci_stub = '''/* CallInline drops whatever the callback's Here hands back: only a terminal callback (the Drop core) may be given to it */
+void CallInline(Core* c, Core* cb) __CPROVER_requires(c != 0 && cb == &g_drop_core && g.call_inlines == 0) __CPROVER_assigns(g.call_inlines, g.ci_on, g.ci_cb) __CPROVER_ensures(g.call_inlines == 1 && g.ci_on == c && g.ci_cb == cb);
 '''
     b = find_body(repo, F_FUT, r'void\s+Detach\s*\(\s*\)\s*&&\s*noexcept', 'FutureBase::Detach')
     c = rw('Future::Detach', omethods=['CallInline']).rewrite(b.text)
@@ -458,6 +459,8 @@ void h_drop(void) { ghost_reset(); g.stores = 1; g_res_dtors = 0; g_calls = 0; C
     job('ReadyCore.Call', b_call, src, 'Call', ['SetResult', 'Loop'], entry='h_call')
     job('ReadyCore.Here', b_here, src, 'Here', ['SetResult'], entry='h_here')
     job('ReadyCore.Drop', b_drop, src.replace('          /* MakeTask stored its value at construction */', ''), 'DropF', ['RESULT_DTOR', 'Store', 'Call'], entry='h_drop')
+    if getattr(ctx, 'prop', None) == 'C05':
+        out = [j for j in out if re.search(r'Start|Task\.|ReadyCore|PromiseCore|Drop', j.name)]      # where a lazy chain starts and what a refused step does
     return out
 
 
